@@ -145,6 +145,48 @@ Example C10_example :
 Proof. vm_compute. split; [reflexivity|]. eexists. repeat split; reflexivity. Qed.
 
 (* ------------------------------------------------------------------------
+   Every runtime configuration.  [process_rt] (Exec/ResponseRuntime.v) is
+   process_graphql_query with its Runtime calls written out (_abort =
+   ensure_wrapped(_on_end(...)), success = map_value(execute(...), _on_end));
+   a runtime is ANY implementation whose observable -- the value itself for
+   graphql_blocking / the default runtime, `await` for graphql (asyncio),
+   `.result()` for ThreadPoolRuntime -- obeys the three wrapper laws.  What
+   the caller of the entry point gets is then the same under all of them, so
+   every statement above holds on the asyncio and thread-pool result paths as
+   well as on the blocking one. *)
+From PyGql Require Import Exec.ResponseRuntime Proofs.ResponseRuntimeProofs.
+
+Theorem C10_runtime_independent : forall (rt : runtime) doc st,
+  entry_point rt st = process st /\ pipeline_rt rt doc st = pipeline_model doc st.
+Proof.
+  intros rt doc st. split; [apply entry_point_runtime_independent|apply pipeline_runtime_independent].
+Qed.
+Print Assumptions C10_runtime_independent.
+
+Theorem C10_wf_every_runtime : forall (rt : runtime) doc st r,
+  stages_wf_b doc st = true -> pipeline_rt rt doc st = Ok r ->
+  (st_parse st = None -> wf_response doc r) /\
+  (st_parse st <> None -> wf_response doc (rename_columne r)) /\
+  data_presence (failed_early st) r /\
+  (aborted_before_execution st = true -> response_data r = Some JNull /\ response_errors r <> []).
+Proof.
+  intros rt doc st r Hwf H. rewrite pipeline_runtime_independent in H.
+  destruct (pipeline_wf_partial doc st r Hwf H) as [A B].
+  split; [exact A|]. split; [exact B|]. split; [exact (pipeline_data_presence doc st r Hwf H)|].
+  intros Ha. exact (pipeline_abort_data doc st r H Ha).
+Qed.
+Print Assumptions C10_wf_every_runtime.
+
+(* the laws are satisfiable: the blocking runtime (values as they are) and a
+   future-like runtime (awaitable / Future) are instances, and give the same
+   response on a concrete request *)
+Example C10_runtime_instances :
+  let st := Stages None [] None [] [] [] (JObj [(str_of_string "a", JInt 1)], []) in
+  pipeline_rt blocking_runtime [] st = pipeline_rt future_runtime [] st /\
+  pipeline_rt future_runtime [] st = Ok (JObj [(k_data, JObj [(str_of_string "a", JInt 1)])]).
+Proof. split; reflexivity. Qed.
+
+(* ------------------------------------------------------------------------
    Composition with the C04 executor model (Exec/ExecModel.v, read-only).
    The execution result is no longer an input: it is [execute] of ExecModel,
    converted by Exec/ResponseExec.v.  Obligated positions ([obligations]) are
